@@ -48,12 +48,13 @@ Proof.
   intro HH. apply H2. apply in_or_app; auto.
 Qed.
 
+
 Lemma st_unique tr : NoDup (st_ids tr) ->
-  forall i d w d' w', In (ESt i d w) tr -> In (ESt i d' w') tr -> d = d' /\ w = w'.
+  forall i d d', In (ESt i d) tr -> In (ESt i d') tr -> d = d'.
 Proof.
-  induction tr as [|e tr IH]; intros ND i d w d' w' H1 H2; [destruct H1|].
-  assert (IN : forall j a b, In (ESt j a b) tr -> In j (st_ids tr)).
-  { clear. intros j a b H. unfold st_ids. apply in_flat_map. exists (ESt j a b). split; simpl; auto. }
+  induction tr as [|e tr IH]; intros ND i d d' H1 H2; [destruct H1|].
+  assert (IN : forall j a, In (ESt j a) tr -> In j (st_ids tr)).
+  { clear. intros j a H. unfold st_ids. apply in_flat_map. exists (ESt j a). split; simpl; auto. }
   change (e :: tr) with ([e] ++ tr) in ND. rewrite st_ids_app in ND.
   destruct H1 as [H1|H1], H2 as [H2|H2].
   - subst e. inversion H2; auto.
@@ -62,11 +63,47 @@ Proof.
   - apply NoDup_app_r in ND. eapply IH; eauto.
 Qed.
 
-Lemma in_st_ids tr i : In i (st_ids tr) <-> exists d w, In (ESt i d w) tr.
+Lemma in_st_ids tr i : In i (st_ids tr) <-> exists d, In (ESt i d) tr.
 Proof.
   unfold st_ids. rewrite in_flat_map. split.
   - intros (e & H1 & H2). destruct e; simpl in H2; try contradiction. destruct H2 as [H2|[]]. subst. eauto.
-  - intros (d & w & H). exists (ESt i d w). simpl; auto.
+  - intros (d & H). exists (ESt i d). simpl; auto.
+Qed.
+
+(* ---------- old / young timeouts ---------- *)
+Lemma sched_split_snoc tr e : sched_split (tr ++ [e]) = sched_step (sched_split tr) e.
+Proof. unfold sched_split. rewrite fold_left_app. reflexivity. Qed.
+
+Lemma old_young_st tr : old_ids tr ++ young_ids tr = st_ids tr.
+Proof.
+  induction tr as [|e tr IH] using rev_ind; [reflexivity|].
+  unfold old_ids, young_ids in *. rewrite sched_split_snoc, st_ids_app.
+  destruct (sched_split tr) as [o y]. simpl in IH.
+  destruct e; simpl; rewrite ?app_nil_r, <- ?IH; auto. rewrite app_assoc. reflexivity.
+Qed.
+
+Definition keeps_split (e : ev) : Prop := match e with EIt _ | ESt _ _ => False | _ => True end.
+
+Lemma split_snoc_keep tr e : keeps_split e -> sched_split (tr ++ [e]) = sched_split tr.
+Proof. intro K. rewrite sched_split_snoc. destruct e; simpl in *; tauto. Qed.
+
+Lemma young_snoc_keep tr e : keeps_split e -> young_ids (tr ++ [e]) = young_ids tr.
+Proof. intro K. unfold young_ids. rewrite split_snoc_keep; auto. Qed.
+
+Lemma old_snoc_keep tr e : keeps_split e -> old_ids (tr ++ [e]) = old_ids tr.
+Proof. intro K. unfold old_ids. rewrite split_snoc_keep; auto. Qed.
+
+Lemma young_snoc_st tr i d : young_ids (tr ++ [ESt i d]) = young_ids tr ++ [i].
+Proof. unfold young_ids. rewrite sched_split_snoc. reflexivity. Qed.
+
+Lemma young_snoc_it tr t : young_ids (tr ++ [EIt t]) = [].
+Proof. unfold young_ids. rewrite sched_split_snoc. reflexivity. Qed.
+
+Lemma old_not_young tr i : NoDup (st_ids tr) -> In i (old_ids tr) -> ~ In i (young_ids tr).
+Proof.
+  rewrite <- old_young_st. intros ND O Y.
+  induction (old_ids tr) as [|a l IH]; [destruct O|]. simpl in ND. inversion ND; subst.
+  destruct O as [O|O]; [subst; apply H1; apply in_or_app; auto|auto].
 Qed.
 
 (* ------------------------------------------------------------------ *)
@@ -75,11 +112,14 @@ Definition Qto (tr1 : list ev) (e : ev) : Prop :=
   match e with
   | ERun j RTo _ =>
       ~ In (ERm j) tr1 /\ ~ In j (runs RTo tr1) /\
-      exists d w, In (ESt j d w) tr1 /\ d <= clock_of tr1 /\
-        forall i di wi, In (ESt i di wi) tr1 -> ~ In i (runs RTo tr1) -> ~ In (ERm i) tr1 -> w <= wi
-  | ESt _ d w => w = Z.max (clock_of tr1) d
+      exists d, In (ESt j d) tr1 /\ d <= clock_of tr1 /\
+        forall i di, In (ESt i di) tr1 -> In i (old_ids tr1) ->
+                     ~ In i (runs RTo tr1) -> ~ In (ERm i) tr1 -> d <= di
   | _ => True
   end.
+
+Definition young_h (h : handle) (tr : list ev) : Prop :=
+  exists i d b, h = HUser i (KTo d) b /\ In i (young_ids tr).
 
 Record Inv (td : list handle) (s : st) : Prop := {
   v_cb : sc_list (ctr s) = runs RCb (ctr s) ++ cb_ids (td ++ ready s);
@@ -91,12 +131,15 @@ Record Inv (td : list handle) (s : st) : Prop := {
   v_to_cover : forall i, In i (st_ids (ctr s)) ->
       In i (runs RTo (ctr s)) \/ In i (to_ids (heap s ++ td ++ ready s)) \/ In i (cancelled s);
   v_cancel : forall i, In i (cancelled s) <-> In (ERm i) (ctr s);
-  v_link : forall i d w b, In (HUser i (KTo d w) b) (heap s ++ td ++ ready s) -> In (ESt i d w) (ctr s) /\ d <= w;
+  v_link : forall i d b, In (HUser i (KTo d) b) (heap s ++ td ++ ready s) -> In (ESt i d) (ctr s);
   v_clock : clock_of (ctr s) = now s;
   v_heap_ok : heap_ok hwhen HStop (heap s);
   v_heap_tl : forall h, In h (heap s) -> timerlike h = true;
   v_sorted : StronglySorted le_when (filter timerlike (td ++ ready s));
-  v_popped_le : forall p h, In p (filter timerlike (td ++ ready s)) -> In h (heap s) -> hwhen p <= hwhen h;
+  (* a handle already collected by this iteration is not later than any timer still in the heap,
+     except timers scheduled during this very iteration *)
+  v_popped_le : forall p h, In p (filter timerlike (td ++ ready s)) -> In h (heap s) ->
+      hwhen p <= hwhen h \/ young_h h (ctr s);
   v_due : forall p, In p (filter timerlike (td ++ ready s)) -> hwhen p <= now s;
   v_P : all_prefix Qto (ctr s)
 }.
@@ -104,7 +147,7 @@ Record Inv (td : list handle) (s : st) : Prop := {
 (* events that do not concern callbacks/timeouts *)
 Definition neutral_ev (e : ev) : Prop :=
   match e with
-  | ESc _ | ESt _ _ _ | ERm _ | EIt _ | EAdv _ | ERun _ RCb _ | ERun _ RTo _ => False
+  | ESc _ | ESt _ _ | ERm _ | EIt _ | EAdv _ | ERun _ RCb _ | ERun _ RTo _ => False
   | _ => True
   end.
 
@@ -112,6 +155,18 @@ Lemma in_snoc_neutral {A} (x e : A) tr : x <> e -> (In x (tr ++ [e]) <-> In x tr
 Proof.
   intro NE. rewrite in_app_iff. simpl. split; [intros [H|[H|[]]]; auto; congruence|auto].
 Qed.
+
+Lemma in_snoc_other {A} (x e : A) tr : In x tr -> In x (tr ++ [e]).
+Proof. intro. apply in_or_app; auto. Qed.
+
+Lemma young_h_keep h tr e : keeps_split e -> young_h h tr -> young_h h (tr ++ [e]).
+Proof. intros K (i & d & b & E & Y). exists i, d, b. split; auto. rewrite young_snoc_keep; auto. Qed.
+
+Lemma popped_le_keep (P : handle -> Prop) (Hp : handle -> Prop) tr e :
+  keeps_split e ->
+  (forall p h, P p -> Hp h -> hwhen p <= hwhen h \/ young_h h tr) ->
+  (forall p h, P p -> Hp h -> hwhen p <= hwhen h \/ young_h h (tr ++ [e])).
+Proof. intros K H p h A B. destruct (H p h A B); auto. right. apply young_h_keep; auto. Qed.
 
 Lemma Inv_emit_neutral td s e : neutral_ev e -> Inv td s -> Inv td (emit e s).
 Proof.
@@ -123,10 +178,12 @@ Proof.
   assert (E5 : forall c, clock_step c e = c) by (destruct e as [| | | | | |? [] ?| | | | | |]; simpl in *; tauto).
   assert (E6 : forall i, ERm i <> e) by (intros i HH; subst e; simpl in N; tauto).
   assert (E7 : forall tr, Qto tr e) by (destruct e as [| | | | | |? [] ?| | | | | |]; simpl in *; tauto).
+  assert (E8 : keeps_split e) by (destruct e; simpl in *; tauto).
   constructor; rewrite ?ctr_emit, ?sc_list_app, ?st_ids_app, ?runs_app, ?E1, ?E2, ?E3, ?E4, ?app_nil_r; cbn [ready heap next cancelled now emit]; auto.
   - intro i. rewrite v_cancel0. symmetry. apply in_snoc_neutral. apply E6.
-  - intros i d w b H. destruct (v_link0 i d w b H). split; auto. apply in_or_app; auto.
+  - intros i d b H. apply in_snoc_other. eapply v_link0; eauto.
   - rewrite clock_of_snoc, E5. auto.
+  - intros p h A B. destruct (v_popped_le0 p h A B); auto. right. apply young_h_keep; auto.
   - apply all_prefix_snoc; auto.
 Qed.
 
@@ -164,7 +221,7 @@ Proof.
   { rewrite app_assoc. apply filter_app_nil. exact C. }
   constructor; cbn [ready heap next cancelled now push_ready]; change (ctr (push_ready hs s)) with (ctr s); rewrite ?T, ?F; auto.
   - rewrite app_assoc, cb_ids_app, A, app_nil_r. auto.
-  - intros i d w b H. apply (v_link0 i d w b). rewrite !app_assoc in H. apply in_app_or in H. destruct H as [H|H].
+  - intros i d b H. apply (v_link0 i d b). rewrite !app_assoc in H. apply in_app_or in H. destruct H as [H|H].
     + rewrite <- !app_assoc in H. exact H.
     + exfalso. rewrite Forall_forall in N. apply N in H. exact H.
 Qed.
@@ -179,9 +236,6 @@ Proof.
   inversion F; subst. inversion ND; subst. constructor; auto.
   rewrite in_app_iff. simpl. intros [H|[H|[]]]; [auto|lia].
 Qed.
-
-Lemma in_snoc_other {A} (x e : A) tr : In x tr -> In x (tr ++ [e]).
-Proof. intro. apply in_or_app; auto. Qed.
 
 Lemma Inv_sched_cb td s b :
   Inv td s -> Inv td (push_ready [HUser (next s) KCb b] (emit (ESc (next s)) (bump s))).
@@ -201,12 +255,13 @@ Proof.
   - apply NoDup_snoc_fresh; auto.
   - apply Forall_lt_S; auto.
   - intro i. rewrite v_cancel0. symmetry. apply in_snoc_neutral. discriminate.
-  - intros i d w b' H.
-    assert (H' : In (HUser i (KTo d w) b') (heap s ++ td ++ ready s)).
+  - intros i d b' H.
+    assert (H' : In (HUser i (KTo d) b') (heap s ++ td ++ ready s)).
     { rewrite !app_assoc in H. apply in_app_or in H. destruct H as [H|[H|[]]]; [|discriminate].
       rewrite <- !app_assoc in H. exact H. }
-    destruct (v_link0 i d w b' H'). split; auto. apply in_snoc_other; auto.
+    apply in_snoc_other. eapply v_link0; eauto.
   - rewrite clock_of_snoc. simpl. auto.
+  - intros p h A B. destruct (v_popped_le0 p h A B); auto. right. apply young_h_keep; auto. exact I.
   - apply all_prefix_snoc; auto. exact I.
 Qed.
 
@@ -214,12 +269,12 @@ Qed.
 Lemma to_ids_perm a b : Permutation a b -> Permutation (to_ids a) (to_ids b).
 Proof. intro H. unfold to_ids. apply Permutation_flat_map. exact H. Qed.
 
-Lemma in_to_ids l i : In i (to_ids l) <-> exists d w b, In (HUser i (KTo d w) b) l.
+Lemma in_to_ids l i : In i (to_ids l) <-> exists d b, In (HUser i (KTo d) b) l.
 Proof.
   unfold to_ids. rewrite in_flat_map. split.
-  - intros (h & H1 & H2). destruct h as [j [|d w|] b| | | |]; simpl in H2; try contradiction.
+  - intros (h & H1 & H2). destruct h as [j [|d|] b| | | |]; simpl in H2; try contradiction.
     destruct H2 as [H2|[]]. subst. eauto.
-  - intros (d & w & b & H). exists (HUser i (KTo d w) b). simpl; auto.
+  - intros (d & b & H). exists (HUser i (KTo d) b). simpl; auto.
 Qed.
 
 Lemma in_runs k tr i : In i (runs k tr) <-> exists l, In (ERun i k l) tr.
@@ -234,7 +289,7 @@ Lemma runs_in_st tr : all_prefix Qto tr -> forall i, In i (runs RTo tr) -> In i 
 Proof.
   intros P i H. apply in_runs in H. destruct H as (l & H). apply in_split in H.
   destruct H as (tr1 & tr2 & E). specialize (P tr1 (ERun i RTo l) tr2 E). simpl in P.
-  destruct P as (_ & _ & d & w & H & _). apply in_st_ids. exists d, w. subst tr. apply in_or_app; auto.
+  destruct P as (_ & _ & d & H & _). apply in_st_ids. exists d. subst tr. apply in_or_app; auto.
 Qed.
 
 Lemma Inv_pending_in_st td s : Inv td s ->
@@ -242,7 +297,7 @@ Lemma Inv_pending_in_st td s : Inv td s ->
 Proof.
   intros [] i H. apply in_app_or in H. destruct H as [H|H].
   - eapply runs_in_st; eauto.
-  - apply in_to_ids in H. destruct H as (d & w & b & H). apply v_link0 in H. apply in_st_ids. exists d, w. tauto.
+  - apply in_to_ids in H. destruct H as (d & b & H). apply v_link0 in H. apply in_st_ids. eauto.
 Qed.
 
 Lemma in_hpush l x h : In h (hpush l x) <-> h = x \/ In h l.
@@ -254,19 +309,18 @@ Qed.
 
 Lemma Inv_sched_to td s dl b :
   Inv td s ->
-  Inv td (add_handle (next s) (sched_timer (HUser (next s) (KTo dl (when_for s dl)) b)
-                                (emit (ESt (next s) dl (when_for s dl)) (bump s)))).
+  Inv td (add_handle (next s) (sched_timer (HUser (next s) (KTo dl) b) (emit (ESt (next s) dl) (bump s)))).
 Proof.
   intro I0. pose proof (Inv_pending_in_st td s I0) as PS. destruct I0.
-  set (n := next s) in *. set (w := when_for s dl).
-  set (H := HUser n (KTo dl w) b).
+  set (n := next s) in *.
+  set (H := HUser n (KTo dl) b).
   assert (PM : Permutation (to_ids (hpush (heap s) H ++ td ++ ready s)) (n :: to_ids (heap s ++ td ++ ready s))).
   { change (n :: to_ids (heap s ++ td ++ ready s)) with (to_ids ((H :: heap s) ++ td ++ ready s)).
     apply to_ids_perm. apply Permutation_app_tail. apply heappush_perm. }
   assert (FR : ~ In n (runs RTo (ctr s) ++ to_ids (heap s ++ td ++ ready s))).
   { intro HH. apply PS in HH. rewrite Forall_forall in v_st_fresh0. apply v_st_fresh0 in HH. lia. }
   constructor; cbn [ready heap next cancelled now add_handle sched_timer set_heap emit bump];
-    change (ctr (add_handle n (sched_timer H (emit (ESt n dl w) (bump s))))) with (ctr s ++ [ESt n dl w]);
+    change (ctr (add_handle n (sched_timer H (emit (ESt n dl) (bump s))))) with (ctr s ++ [ESt n dl]);
     rewrite ?sc_list_app, ?st_ids_app, ?runs_app; simpl (sc_list [_]); simpl (st_ids [_]); simpl (runs _ [_]);
     rewrite ?app_nil_r; auto.
   - apply Forall_lt_S; auto.
@@ -280,18 +334,19 @@ Proof.
       right; left. apply (Permutation_in _ (Permutation_sym PM)). right; auto.
     + subst i. right; left. apply (Permutation_in _ (Permutation_sym PM)). left; auto.
   - intro i. rewrite v_cancel0. symmetry. apply in_snoc_neutral. discriminate.
-  - intros i d w' b' Hin. apply in_app_or in Hin. destruct Hin as [Hin|Hin].
+  - intros i d b' Hin. apply in_app_or in Hin. destruct Hin as [Hin|Hin].
     + apply in_hpush in Hin. destruct Hin as [Hin|Hin].
-      * unfold H in Hin. inversion Hin; subst. split; [apply in_or_app; right; simpl; auto|].
-        unfold w, when_for. lia.
-      * destruct (v_link0 i d w' b'); [apply in_or_app; auto|]. split; auto. apply in_snoc_other; auto.
-    + destruct (v_link0 i d w' b'); [apply in_or_app; auto|]. split; auto. apply in_snoc_other; auto.
+      * unfold H in Hin. inversion Hin; subst. apply in_or_app; right; simpl; auto.
+      * apply in_snoc_other. apply (v_link0 i d b'). apply in_or_app; auto.
+    + apply in_snoc_other. apply (v_link0 i d b'). apply in_or_app; auto.
   - rewrite clock_of_snoc. simpl. auto.
   - apply heappush_ok; auto.
   - intros h Hh. apply in_hpush in Hh. destruct Hh as [Hh|Hh]; [subst h; reflexivity|auto].
-  - intros p h Hp Hh. apply in_hpush in Hh. destruct Hh as [Hh|Hh]; auto.
-    subst h. simpl. apply v_due0 in Hp. unfold w, when_for. lia.
-  - apply all_prefix_snoc; auto. simpl. unfold w, when_for. rewrite v_clock0. reflexivity.
+  - intros p h Hp Hh. apply in_hpush in Hh. destruct Hh as [Hh|Hh].
+    + subst h. right. exists n, dl, b. split; auto. rewrite young_snoc_st. apply in_or_app; right; simpl; auto.
+    + destruct (v_popped_le0 p h Hp Hh) as [L|(i & d & b' & E & Y)]; auto.
+      right. exists i, d, b'. split; auto. rewrite young_snoc_st. apply in_or_app; auto.
+  - apply all_prefix_snoc; auto. exact I.
 Qed.
 
 (* ------------------------------------------------------------------ *)
@@ -306,26 +361,42 @@ Proof.
   - intro j. rewrite in_app_iff. simpl. rewrite <- v_cancel0. split.
     + intros [H|H]; [subst; auto|auto].
     + intros [H|[H|[]]]; [auto|inversion H; auto].
-  - intros j d w b H. destruct (v_link0 j d w b H). split; auto. apply in_snoc_other; auto.
+  - intros j d b H. apply in_snoc_other. eapply v_link0; eauto.
   - rewrite clock_of_snoc. simpl. auto.
+  - intros p h A B. destruct (v_popped_le0 p h A B); auto. right. apply young_h_keep; auto. exact I.
   - apply all_prefix_snoc; auto. exact I.
 Qed.
 
-Lemma Inv_clock td s t (e : ev) :
-  (e = EAdv t \/ e = EIt t) -> now s <= t -> Inv td s -> Inv td (emit e (set_now t s)).
+Lemma Inv_adv td s t : now s <= t -> Inv td s -> Inv td (emit (EAdv t) (set_now t s)).
 Proof.
-  intros He Hle [].
-  assert (E1 : sc_list [e] = []) by (destruct He; subst; reflexivity).
-  assert (E2 : st_ids [e] = []) by (destruct He; subst; reflexivity).
-  assert (E3 : forall k, runs k [e] = []) by (destruct He; subst; reflexivity).
+  intros Hle [].
   constructor; cbn [ready heap next cancelled now set_now emit];
-    change (ctr (emit e (set_now t s))) with (ctr s ++ [e]);
-    rewrite ?sc_list_app, ?st_ids_app, ?runs_app, ?E1, ?E2, ?E3, ?app_nil_r; auto.
-  - intro j. rewrite v_cancel0. symmetry. apply in_snoc_neutral. destruct He; subst; discriminate.
-  - intros j d w b H. destruct (v_link0 j d w b H). split; auto. apply in_snoc_other; auto.
-  - rewrite clock_of_snoc. destruct He; subst; reflexivity.
+    change (ctr (emit (EAdv t) (set_now t s))) with (ctr s ++ [EAdv t]);
+    rewrite ?sc_list_app, ?st_ids_app, ?runs_app; simpl (sc_list [_]); simpl (st_ids [_]); simpl (runs _ [_]);
+    rewrite ?app_nil_r; auto.
+  - intro j. rewrite v_cancel0. symmetry. apply in_snoc_neutral. discriminate.
+  - intros j d b H. apply in_snoc_other. eapply v_link0; eauto.
+  - rewrite clock_of_snoc. reflexivity.
+  - intros p h A B. destruct (v_popped_le0 p h A B); auto. right. apply young_h_keep; auto. exact I.
   - intros p Hp. apply v_due0 in Hp. lia.
-  - apply all_prefix_snoc; auto. destruct He; subst; exact I.
+  - apply all_prefix_snoc; auto. exact I.
+Qed.
+
+(* the iteration mark: nothing has been collected yet, so scheduled timers may all become "old" *)
+Lemma Inv_tick s t : now s <= t -> filter timerlike (ready s) = [] -> Inv [] s -> Inv [] (emit (EIt t) (set_now t s)).
+Proof.
+  intros Hle NT []. simpl in *.
+  constructor; cbn [ready heap next cancelled now set_now emit app];
+    change (ctr (emit (EIt t) (set_now t s))) with (ctr s ++ [EIt t]);
+    rewrite ?sc_list_app, ?st_ids_app, ?runs_app; simpl (sc_list [_]); simpl (st_ids [_]); simpl (runs _ [_]);
+    rewrite ?app_nil_r, ?NT; auto.
+  - intro j. rewrite v_cancel0. symmetry. apply in_snoc_neutral. discriminate.
+  - intros j d b H. apply in_snoc_other. eapply v_link0; eauto.
+  - rewrite clock_of_snoc. reflexivity.
+  - constructor.
+  - intros p h [].
+  - intros p [].
+  - apply all_prefix_snoc; auto. exact I.
 Qed.
 
 Lemma Inv_todo s : Inv [] s -> Inv (ready s) (set_ready [] s).
@@ -349,20 +420,20 @@ Proof.
   rewrite TI in *.
   constructor; auto.
   - rewrite v_cb0. simpl. rewrite C. reflexivity.
-  - intros i d w b H. apply (v_link0 i d w b). apply in_app_or in H. apply in_or_app. destruct H; auto.
+  - intros i d b H. apply (v_link0 i d b). apply in_app_or in H. apply in_or_app. destruct H; auto.
     right. simpl. auto.
   - simpl in v_sorted0. destruct (timerlike h); [eapply StronglySorted_tail; eauto|auto].
 Qed.
 
-Lemma not_cancelled_not_in s i d w b : is_cancelled s (HUser i (KTo d w) b) = false -> ~ In i (cancelled s).
+Lemma not_cancelled_not_in s i d b : is_cancelled s (HUser i (KTo d) b) = false -> ~ In i (cancelled s).
 Proof.
   simpl. intros H HI. assert (existsb (Nat.eqb i) (cancelled s) = true); [|congruence].
   apply existsb_exists. exists i. split; auto. apply Nat.eqb_refl.
 Qed.
 
-Lemma cancelled_is s h : is_cancelled s h = true -> exists i d w b, h = HUser i (KTo d w) b /\ In i (cancelled s).
+Lemma cancelled_is s h : is_cancelled s h = true -> exists i d b, h = HUser i (KTo d) b /\ In i (cancelled s).
 Proof.
-  destruct h as [i [|d w|] b| | | |]; simpl; try discriminate. intro H.
+  destruct h as [i [|d|] b| | | |]; simpl; try discriminate. intro H.
   apply existsb_exists in H. destruct H as (j & H1 & H2). apply Nat.eqb_eq in H2. subst j. eauto 7.
 Qed.
 
@@ -376,7 +447,7 @@ Lemma Inv_run_user td s i k b :
   is_cancelled s (HUser i k b) = false ->
   Inv (HUser i k b :: td) s -> Inv td (emit (ERun i (rkind_of k) (b_label b)) s).
 Proof.
-  intros NC I0. destruct k as [|d w|f].
+  intros NC I0. destruct k as [|d|f].
   - (* add_callback instance *)
     destruct I0.
     assert (TI : to_ids (heap s ++ (HUser i KCb b :: td) ++ ready s) = to_ids (heap s ++ td ++ ready s)).
@@ -387,12 +458,13 @@ Proof.
       rewrite ?app_nil_r; auto.
     + rewrite v_cb0. simpl. rewrite <- app_assoc. reflexivity.
     + intro j. rewrite v_cancel0. symmetry. apply in_snoc_neutral. discriminate.
-    + intros j d w b' H. destruct (v_link0 j d w b'); [|split; auto; apply in_snoc_other; auto].
+    + intros j d b' H. apply in_snoc_other. apply (v_link0 j d b').
       apply in_app_or in H. apply in_or_app. destruct H; auto. right; simpl; auto.
     + rewrite clock_of_snoc. auto.
+    + intros p h A B. destruct (v_popped_le0 p h A B); auto. right. apply young_h_keep; auto. exact I.
     + apply all_prefix_snoc; auto. exact I.
   - (* timeout instance *)
-    set (H := HUser i (KTo d w) b) in *.
+    set (H := HUser i (KTo d) b) in *.
     pose proof I0 as I1. destruct I0.
     assert (PM : Permutation (to_ids (heap s ++ (H :: td) ++ ready s)) (i :: to_ids (heap s ++ td ++ ready s))).
     { change (i :: to_ids (heap s ++ td ++ ready s)) with (to_ids (H :: heap s ++ td ++ ready s)).
@@ -401,7 +473,7 @@ Proof.
     { eapply Permutation_NoDup; [|exact v_to_nodup0]. apply Permutation_app_head. exact PM. }
     simpl in v_sorted0, v_popped_le0, v_due0.
     assert (HL : In H (heap s ++ (H :: td) ++ ready s)) by (apply in_or_app; right; simpl; auto).
-    destruct (v_link0 i d w b HL) as [HS Hdw].
+    pose proof (v_link0 i d b HL) as HS.
     constructor; cbn [ready heap next cancelled now emit rkind_of];
       rewrite ?ctr_emit, ?sc_list_app, ?st_ids_app, ?runs_app; simpl (sc_list [_]); simpl (st_ids [_]); simpl (runs _ [_]);
       rewrite ?app_nil_r; auto.
@@ -410,28 +482,30 @@ Proof.
       * left. apply in_or_app; auto.
       * apply (Permutation_in _ PM) in A. destruct A as [A|A]; [subst; left; apply in_or_app; simpl; auto|auto].
     + intro j. rewrite v_cancel0. symmetry. apply in_snoc_neutral. discriminate.
-    + intros j d' w' b' Hin. destruct (v_link0 j d' w' b'); [|split; auto; apply in_snoc_other; auto].
+    + intros j d' b' Hin. apply in_snoc_other. apply (v_link0 j d' b').
       apply in_app_or in Hin. apply in_or_app. destruct Hin; auto. right; simpl; auto.
     + rewrite clock_of_snoc. auto.
     + eapply StronglySorted_tail; eauto.
+    + intros p h A B. destruct (v_popped_le0 p h (or_intror A) B); auto. right. apply young_h_keep; auto. exact I.
     + apply all_prefix_snoc; auto. simpl.
       assert (NR : ~ In i (runs RTo (ctr s))).
       { eapply NoDup_app_notin; [exact ND|]. simpl; auto. }
       split; [|split; auto].
       * rewrite <- v_cancel0. eapply not_cancelled_not_in; eauto.
-      * exists d, w. split; auto. split.
+      * exists d. split; auto. split.
         -- rewrite v_clock0. specialize (v_due0 H (or_introl eq_refl)). simpl in v_due0. lia.
-        -- intros i' di wi HSt NR' NM.
+        -- intros i' di HSt OLD NR' NM.
            assert (Hi' : In i' (st_ids (ctr s))) by (apply in_st_ids; eauto).
            destruct (v_to_cover0 i' Hi') as [A|[A|A]]; [contradiction| |apply v_cancel0 in A; contradiction].
-           apply in_to_ids in A. destruct A as (d' & w' & b' & A).
-           destruct (v_link0 i' d' w' b' A) as [A1 _].
-           destruct (st_unique _ v_st_nodup0 _ _ _ _ _ HSt A1) as [_ EW]. subst wi.
+           apply in_to_ids in A. destruct A as (d' & b' & A).
+           pose proof (v_link0 i' d' b' A) as A1.
+           pose proof (st_unique _ v_st_nodup0 _ _ _ HSt A1) as EW. subst di.
            apply in_app_or in A. destruct A as [A|A].
-           ++ specialize (v_popped_le0 H _ (or_introl eq_refl) A). exact v_popped_le0.
+           ++ destruct (v_popped_le0 H _ (or_introl eq_refl) A) as [L|(i2 & d2 & b2 & E2 & Y)]; [exact L|].
+              inversion E2; subst. exfalso. eapply old_not_young; eauto.
            ++ simpl in A. destruct A as [A|A]; [inversion A; subst; lia|].
               inversion v_sorted0 as [|? ? _ FA]; subst. rewrite Forall_forall in FA.
-              assert (In (HUser i' (KTo d' w') b') (filter timerlike (td ++ ready s))) by (apply filter_In; split; auto).
+              assert (In (HUser i' (KTo d') b') (filter timerlike (td ++ ready s))) by (apply filter_In; split; auto).
               apply FA in H0. exact H0.
   - (* add_future instance *)
     apply Inv_emit_neutral; [exact I|]. eapply Inv_drop_head; eauto; reflexivity.
@@ -444,8 +518,8 @@ Proof. apply NoDup_remove_1. Qed.
 (* a cancelled timer handle is skipped by the run loop *)
 Lemma Inv_skip td s h : is_cancelled s h = true -> Inv (h :: td) s -> Inv td s.
 Proof.
-  intros C I0. destruct (cancelled_is s h C) as (i & d & w & b & E & HC). subst h.
-  set (H := HUser i (KTo d w) b) in *. destruct I0.
+  intros C I0. destruct (cancelled_is s h C) as (i & d & b & E & HC). subst h.
+  set (H := HUser i (KTo d) b) in *. destruct I0.
   assert (PM : Permutation (to_ids (heap s ++ (H :: td) ++ ready s)) (i :: to_ids (heap s ++ td ++ ready s))).
   { change (i :: to_ids (heap s ++ td ++ ready s)) with (to_ids (H :: heap s ++ td ++ ready s)).
     apply to_ids_perm. apply Permutation_sym. simpl. apply Permutation_middle. }
@@ -456,7 +530,7 @@ Proof.
     eapply NoDup_remove_mid; eauto.
   - intros j Hj. destruct (v_to_cover0 j Hj) as [A|[A|A]]; auto.
     apply (Permutation_in _ PM) in A. destruct A as [A|A]; [subst; auto|auto].
-  - intros j d' w' b' Hin. apply (v_link0 j d' w' b').
+  - intros j d' b' Hin. apply (v_link0 j d' b').
     apply in_app_or in Hin. apply in_or_app. destruct Hin; auto. right; simpl; auto.
   - eapply StronglySorted_tail; eauto.
 Qed.
@@ -473,8 +547,8 @@ Qed.
 Lemma Inv_heap_drop s h hp :
   hpop (heap s) = Some (h, hp) -> is_cancelled s h = true -> Inv [] s -> Inv [] (set_heap hp s).
 Proof.
-  intros P C I0. destruct (cancelled_is s h C) as (i & d & w & b & E & HC). subst h.
-  set (H := HUser i (KTo d w) b) in *.
+  intros P C I0. destruct (cancelled_is s h C) as (i & d & b & E & HC). subst h.
+  set (H := HUser i (KTo d) b) in *.
   destruct (hpop_facts _ _ _ P) as (PM0 & _ & OK). destruct I0.
   assert (PM : Permutation (to_ids (heap s ++ [] ++ ready s)) (i :: to_ids (hp ++ [] ++ ready s))).
   { change (i :: to_ids (hp ++ [] ++ ready s)) with (to_ids ((H :: hp) ++ [] ++ ready s)).
@@ -487,7 +561,7 @@ Proof.
     eapply NoDup_remove_mid; eauto.
   - intros j Hj. destruct (v_to_cover0 j Hj) as [A|[A|A]]; auto.
     apply (Permutation_in _ PM) in A. destruct A as [A|A]; [subst; auto|auto].
-  - intros j d' w' b' Hin. apply (v_link0 j d' w' b').
+  - intros j d' b' Hin. apply (v_link0 j d' b').
     apply in_app_or in Hin. apply in_or_app. destruct Hin; auto.
 Qed.
 
@@ -501,11 +575,15 @@ Proof.
     + apply Forall_app. split; auto. constructor; [apply H; left; auto|constructor].
 Qed.
 
+(* collecting a due timer, right after the iteration mark (so no timer is "young") *)
 Lemma Inv_heap_pop s h hp :
-  hpop (heap s) = Some (h, hp) -> hwhen h <= now s -> Inv [] s -> Inv [] (push_ready [h] (set_heap hp s)).
+  hpop (heap s) = Some (h, hp) -> hwhen h <= now s -> (exists tr0 t, ctr s = tr0 ++ [EIt t]) ->
+  Inv [] s -> Inv [] (push_ready [h] (set_heap hp s)).
 Proof.
-  intros P DUE I0.
+  intros P DUE (tr0 & t0 & LAST) I0.
   destruct (hpop_facts _ _ _ P) as (PM0 & (t & ET) & OK). destruct I0. simpl in *.
+  assert (NY : forall x, ~ young_h x (ctr s)).
+  { intros x (i & d & b & _ & Y). rewrite LAST, young_snoc_it in Y. exact Y. }
   assert (TL : timerlike h = true) by (apply v_heap_tl0; rewrite ET; left; auto).
   assert (CB : cb_id h = []) by (destruct h as [? [| |] ?| | | |]; simpl in *; auto; discriminate).
   assert (PM : Permutation (to_ids (heap s ++ ready s)) (to_ids (hp ++ ready s ++ [h]))).
@@ -526,14 +604,15 @@ Proof.
   - eapply Permutation_NoDup; [|exact v_to_nodup0]. apply Permutation_app_head. exact PM.
   - intros j Hj. destruct (v_to_cover0 j Hj) as [A|[A|A]]; auto.
     right; left. apply (Permutation_in _ PM). exact A.
-  - intros j d' w' b' Hin. apply (v_link0 j d' w' b').
+  - intros j d' b' Hin. apply (v_link0 j d' b').
     apply in_app_or in Hin. destruct Hin as [Hin|Hin]; [apply in_or_app; left; auto|].
     apply in_app_or in Hin. destruct Hin as [Hin|[Hin|[]]]; [apply in_or_app; right; auto|].
     apply in_or_app; left. rewrite ET. left; auto.
-  - apply StronglySorted_snoc; auto. intros y Hy. apply v_popped_le0; auto. rewrite ET; left; auto.
+  - apply StronglySorted_snoc; auto. intros y Hy.
+    destruct (v_popped_le0 y h Hy) as [L|Y]; [rewrite ET; left; auto|exact L|exfalso; eapply NY; eauto].
   - intros p x Hp Hx. apply in_app_or in Hp. destruct Hp as [Hp|[Hp|[]]].
     + apply v_popped_le0; auto.
-    + subst p. apply MIN; auto.
+    + subst p. left. apply MIN; auto.
   - intros p Hp. apply in_app_or in Hp. destruct Hp as [Hp|[Hp|[]]]; [auto|subst; auto].
 Qed.
 
@@ -569,7 +648,7 @@ Proof.
     eapply Inv_frame with (s:=s); auto. simpl; lia.
   - apply Inv_add_done_callback; auto.
   - apply Inv_emit_neutral; [exact I|]. eapply Inv_resolve; eauto.
-  - eapply Inv_clock; eauto.
+  - apply Inv_adv; auto.
   - apply Inv_run_user; auto.
   - eapply Inv_skip; eauto.
   - eapply Inv_drop_head; eauto; reflexivity.
@@ -581,7 +660,7 @@ Proof.
   - eapply Inv_frame with (s:=s); auto.
   - eapply Inv_heap_drop; eauto.
   - eapply Inv_heap_pop; eauto.
-  - eapply Inv_clock; eauto.
+  - apply Inv_tick; auto.
   - apply Inv_todo; auto.
 Qed.
 
@@ -605,7 +684,7 @@ Proof.
   - constructor.
   - intros i [].
   - intro i. simpl. tauto.
-  - intros i d w b Hin. exfalso.
+  - intros i d b Hin. exfalso.
     assert (HH : In i (to_ids (ready s))) by (apply in_to_ids; eauto). rewrite R2 in HH. exact HH.
   - reflexivity.
   - apply heap_ok_nil.
@@ -632,12 +711,12 @@ Proof.
   - eapply Permutation_NoDup; [|exact v_to_nodup0]. apply Permutation_app_head. apply Permutation_sym. exact PM.
   - intros i Hi. destruct (v_to_cover0 i Hi) as [A|[A|A]]; auto.
     right; left. apply (Permutation_in _ (Permutation_sym PM)). exact A.
-  - intros i d w' b Hin. apply (v_link0 i d w' b). apply in_app_or in Hin. destruct Hin as [Hin|Hin].
+  - intros i d b Hin. apply (v_link0 i d b). apply in_app_or in Hin. destruct Hin as [Hin|Hin].
     + apply in_hpush in Hin. destruct Hin as [Hin|Hin]; [discriminate|apply in_or_app; auto].
     + apply in_or_app; auto.
   - apply heappush_ok; auto.
   - intros h Hh. apply in_hpush in Hh. destruct Hh as [Hh|Hh]; [subst; reflexivity|auto].
-  - intros p h Hp Hh. apply in_hpush in Hh. destruct Hh as [Hh|Hh]; [subst h; simpl; auto|auto].
+  - intros p h Hp Hh. apply in_hpush in Hh. destruct Hh as [Hh|Hh]; [subst h; left; simpl; auto|auto].
 Qed.
 
 Lemma Inv_init_sync b t : Inv [] (init_sync b t).
